@@ -44,6 +44,7 @@ pub fn plan(property: &str, tier: &str) -> Option<CheckPlan> {
     let seed = seed_from_env();
     let thorough = tier == "thorough";
     match property {
+        "C06" => Some(c06(seed, tier, thorough)),
         "C07" => Some(c07(seed, tier, thorough)),
         "C08" => Some(c08(seed, tier, thorough)),
         "C09" => Some(c09(seed, tier, thorough)),
@@ -169,5 +170,49 @@ fn c08(seed: u64, tier: &str, thorough: bool) -> CheckPlan {
         ],
         exhaustive: false,
         extra: json!({}),
+    }
+}
+
+fn c06(seed: u64, tier: &str, thorough: bool) -> CheckPlan {
+    let mut jobs = vec![];
+    let n_car = crate::carriers::CARRIERS.len();
+    let n_cat = crate::carriers::CATCHERS.len();
+    let mut rng = Prng::new(derive(seed, "c06", 0));
+    for ci in 0..n_car {
+        // every carrier bare; under catchers: all of them (thorough) or two seeded ones (quick)
+        let mut cats: Vec<usize> = if thorough || ci == 0 { (0..n_cat).collect() } else { vec![0, 1 + rng.below(n_cat as u64 - 1) as usize, 1 + rng.below(n_cat as u64 - 1) as usize] };
+        cats.sort();
+        cats.dedup();
+        for ki in cats {
+            jobs.push(job("C06", "carrier", derive(seed, "c06car", (ci * 64 + ki) as u64), tier,
+                json!({"carrier": ci, "catcher": ki, "max_points": if thorough { 120 } else { 24 }})));
+        }
+    }
+    for id in corpus_ids(derive(seed, "c06corpus", 0), if thorough { usize::MAX } else { 80 }) {
+        jobs.push(job("C06", "corpus", derive(seed, "c06corpus", 1), tier, json!({"script": id, "max_points": if thorough { 150 } else { 20 }})));
+    }
+    jobs.push(job("C06", "errors", seed, tier, json!({})));
+    CheckPlan {
+        property: "C06".into(),
+        tier: tier.into(),
+        seed,
+        level: "fault_enumeration".into(),
+        jobs,
+        rule: "One evaluation = one simulated host history (instantiate, run, drop, reset, run again, drop) of real xray code under one injected fault: \
+               a size / call / depth / recursion / search limit placed at a trip point taken from the fault-free run's event stream, a deadline between two allocations \
+               under the simulated clock, or an output-sink fault (error, zero-length write, EINTR, short write) at one write index. Programs put a work function that consumes \
+               every budget under each catcher (if_error, is_error, get_error, and/or, then, optional combinators, if) and inside each higher-order native (sequence, generator, \
+               mapping/set with user hash/eq, derived eq/cmp/hash/to_str, partial, format strings, defaults), plus the shipped scripts. The error half is a fixed enumeration of \
+               callee kinds x erroring argument subsets. Distinct = (program, fault kind, violation kind, source site of the refusal, host op).".into(),
+        assumptions: vec![
+            "which violation fired first is known from observer events (allocation/preflight/call count/frame height/tail iteration/permission), the writer double and the simulated clock - not from xray's own propagation".into(),
+            "the search budget's refusal has no observer event; a MaximumSearch outcome is accepted wherever a search limit is configured".into(),
+            "the error half covers the listed callee kinds only; arbitrary programs are out of reach of this technique".into(),
+        ],
+        opts: SupOpts::default(),
+        required_probes: vec!["trip_size".into(), "trip_calls".into(), "trip_depth".into(), "trip_recursion".into(), "trip_search".into(), "trip_time".into(), "trip_writer".into(),
+            "rerun_after_violation_succeeded".into(), "eintr_transparent".into(), "short_write_transparent".into(), "error_cases".into()],
+        exhaustive: false,
+        extra: json!({"carriers": n_car, "catchers": n_cat}),
     }
 }
